@@ -15,8 +15,13 @@ def sh(*a, **k):
 def main():
     args = sys.argv[1:]
     props = None
-    if args and args[0] == '--props':
-        props = args[1]; args = args[2:]
+    jsonout = None
+    while args and args[0] in ('--props', '--json'):
+        if args[0] == '--props':
+            props = args[1]
+        else:
+            jsonout = args[1]
+        args = args[2:]
     allprops = sh('/verif/bin/xzverify', 'list').stdout.split()
     base = tempfile.mkdtemp(prefix='seedeval-')
     home = os.path.join(base, 'home'); os.makedirs(home + '/evidence')
@@ -56,5 +61,12 @@ def main():
             sh('git', '-C', '/repo', 'worktree', 'remove', '--force', wt)
     shutil.rmtree(base, ignore_errors=True)
     sh('git', '-C', '/repo', 'worktree', 'prune')
+    if jsonout:
+        old = {}
+        try: old = json.load(open(jsonout))
+        except Exception: pass
+        for k, v in results.items():
+            old[os.path.basename(k)] = v
+        json.dump(old, open(jsonout, 'w'), indent=1, sort_keys=True)
 
 main()
